@@ -1,9 +1,10 @@
 (* Model runner: reads one s-expression per line (the case format written by the Go harness),
    hands it to the extracted checker of the chosen engine and prints the resulting
    s-expression.  Hand-written glue (trusted): this parser/printer only. *)
+type ostring = string   (* the extracted module defines Coq's own [string] *)
 open Model
 
-let pos_of_hex (s : string) : positive option =
+let pos_of_hex (s : ostring) : positive option =
   (* hex digits, most significant first; None if zero *)
   let acc = ref None in
   String.iter (fun c ->
@@ -34,14 +35,14 @@ let hexval c = match c with
   | 'A'..'F' -> Char.code c - 55
   | _ -> failwith "bad hex"
 
-let bytes_of_hex (s : string) : n list =
+let bytes_of_hex (s : ostring) : n list =
   let l = String.length s / 2 in
   let rec go i acc = if i < 0 then acc
     else go (i - 1) (byte_tbl.(hexval s.[2*i] * 16 + hexval s.[2*i+1]) :: acc) in
   go (l - 1) []
 
 (* tokens:  ( )  #hex  [-]hexdigits *)
-let parse (line : string) : sx =
+let parse (line : ostring) : sx =
   let n = String.length line in
   let pos = ref 0 in
   let rec skip () = if !pos < n && (line.[!pos] = ' ' || line.[!pos] = '\t' || line.[!pos] = '\r') then (incr pos; skip ()) in
